@@ -217,7 +217,26 @@ def main(rec):
 
     if ans == 'early':            # dies before reading its input
         finish(1)
-    if conv == 'stdin_stdout':
+    if conv == 'stdin_stdout' and g('lazy', '0') == '1':
+        # a solver that answers as soon as it knows: it stops reading at the
+        # first empty clause (a line made of the terminator alone), says
+        # UNSATISFIABLE and exits, leaving the rest of its input unread
+        got = b''
+        while True:
+            line = sys.stdin.buffer.readline()
+            if not line:
+                break
+            got += line
+            if line.strip() == b'0':
+                rec['lazy_stop_after_bytes'] = len(got)
+                out.write(b'c empty clause found\ns UNSATISFIABLE\n')
+                try:
+                    sys.stdin.close()
+                except Exception:
+                    pass
+                finish(20)
+        data = got
+    elif conv == 'stdin_stdout':
         data = sys.stdin.buffer.read()
     else:
         try:
@@ -727,15 +746,24 @@ SEED_EXTRA = [
 ]
 
 
+def expand(F):
+    """['BIG', n, head clauses, repeated block, times] -> [n, clauses]: formulas
+    whose DIMACS text is larger than a pipe buffer, kept short in the case."""
+    if isinstance(F, list) and F and F[0] == 'BIG':
+        _, n, head, block, times = F
+        return [n, [list(c) for c in head] + [list(c) for c in block] * times]
+    return F
+
+
 def truth(F):
     """(satisfiable, list of model numbers) by engine.tt."""
-    n, clauses = F
+    n, clauses = expand(F)
     bm = tt.cnf_models(n, [tuple(c) for c in clauses])
     return bool(bm), bm
 
 
 def nth_model(F, idx, omit=False):
-    n, clauses = F
+    n, clauses = expand(F)
     sat, bm = truth(F)
     if not sat:
         return None
@@ -778,6 +806,7 @@ def build_formula(F):
         if kind == 'dict':
             return {1: True}
         raise KeyError(kind)
+    F = expand(F)
     return scope.mk_cnf(F[0], [list(c) for c in F[1]])
 
 
@@ -1164,8 +1193,12 @@ def judge(case, exp, obs, names):
     elif bool(rec.get('sat')) != sat:
         note = ' [the solver was given a different formula: n=%r clauses=%r]' % (
             rec.get('n'), rec.get('clauses'))
-    ctx = 'formula n=%d clauses=%r, cmd=%r sameas=%r, reply %s via %s%s' % (
-        F[0], F[1], case.get('cmd'), case.get('sameas'), sid, used_conv, note)
+    big = isinstance(F, list) and F and F[0] == 'BIG'
+    if big:
+        F = expand(F)
+    ctx = 'formula n=%d clauses=%s, cmd=%r sameas=%r, reply %s via %s%s' % (
+        F[0], ('%r... (%d clauses)' % (F[1][:3], len(F[1]))) if big else repr(F[1]),
+        case.get('cmd'), case.get('sameas'), sid, used_conv, note)
     truthword = 'sat' if sat else 'unsat'
     n = F[0]
 
@@ -1507,6 +1540,16 @@ def all_cases(tier, seed):
                     d = dict(extra)
                     d['model'] = str(idx)
                     cases.append(mk('model', F, cmd=nm, shape=spec_str(fam, d)))
+
+    # B'. formulas whose text exceeds a pipe buffer (64 KiB), also with a solver
+    # that answers at the first empty clause and leaves the rest unread
+    blk = [[1, 2, 3], [-1, 2], [-2, 3], [1, -3]]
+    for nm in reps:
+        fam = fam_of(conv, nm)
+        cases.append(mk('big', ['BIG', 3, [], blk, 5000], cmd=nm, shape=spec_str(fam, {})))
+        cases.append(mk('big', ['BIG', 3, [[]], blk, 5000], cmd=nm, shape=spec_str(fam, {})))
+        cases.append(mk('big', ['BIG', 3, [[1], []], blk, 5000], cmd=nm, shape=spec_str(fam, {'lazy': '1'})))
+        cases.append(mk('big', ['BIG', 3, [], blk, 5000], cmd=nm, shape=spec_str(fam, {'lazy': '1'})))
 
     # C. cmd=None: which installed solver answers ------------------------------
     k = len(names)
